@@ -123,6 +123,9 @@ def check_c07(rep):
         l2_sensitivity(rep, "F_ONE", dict(MaxMsg=1, MaxEnv=5), "KindsOk", "PolIdem", "AtMostOne")
     l2_replay(rep, 1500 if q else 30000)
     run_generated(rep, "random fault scripts", PS.gen_scripts("faults", 700 if q else 15000, lib.seed() + 4))
+    sc = [(f"slowclose-{p}-{s}", p, *G.slow_close(s, p)) for i, s in enumerate(seeds(300 if q else 5000, 77))
+          for p in (("at4",) if i % 2 == 0 else ("at5",))]
+    run_generated(rep, "overlapping resets while the close of a stalled connection is pending", sc)
 
 
 def check_c15(rep):
